@@ -1,0 +1,45 @@
+//go:build verif
+
+// Contracts for the verification machinery in /verif (comment only).
+package pod
+
+/*@ frozen-type types/pod.nodeFilter
+@*/
+
+/*@ theory podfilters
+;; theory filters k8s
+(declare-fun |F!core/v1.Pod!Spec.NodeName| (V) Str)
+(declare-fun |fdom!Str!V| (V) (Array Str Bool))
+(declare-fun |fval!Str!V| (V) (Array Str V))
+; C19: NodeFilter(names...) accepts exactly the pods scheduled on one of the named nodes
+(define-fun nodeAccept ((f V) (o V)) Bool
+  (and (isPod o) (select (|fdom!Str!V| f) (|F!core/v1.Pod!Spec.NodeName| o))))
+(assert (forall ((f V) (o V)) (! (=> (= (dyntype f) |ty!types/pod.nodeFilter|) (= (accept f o) (nodeAccept f o))) :pattern ((accept f o)))))
+; assumed consequence of reflect.DeepEqual on two node filters: same key set
+(assert (forall ((a V) (b V)) (! (=> (and (deep-equal a b) (= (dyntype a) |ty!types/pod.nodeFilter|))
+    (and (= (dyntype b) |ty!types/pod.nodeFilter|) (forall ((k Str)) (= (select (|fdom!Str!V| a) k) (select (|fdom!Str!V| b) k))))) :pattern ((deep-equal a b)))))
+@*/
+
+/*@ func types/pod.NodeFilter
+  props C19 C17
+  theory podfilters
+  loop 1 inv [range] (and (<= 0 (+ {rangeindex} 1)) (<= (+ {rangeindex} 1) (slen {names})) (not (= {set} vnil)))
+  loop 1 inv [set-is-prefix] (forall ((k Str)) (= (select {dom(set)} k)
+        (exists ((j Int)) (and (<= 0 j) (< j (+ {rangeindex} 1)) (= (select (sarr {names}) j) k)))))
+  ensures [is-node-filter] (and (not (= result vnil)) (= (dyntype result) |ty!types/pod.nodeFilter|))
+  ensures [pods-on-named-nodes] (forall ((o V)) (= (accept result o)
+        (and (isPod o) (exists ((j Int)) (and (<= 0 j) (< j (slen {names})) (= (select (sarr {names}) j) (|F!core/v1.Pod!Spec.NodeName| o)))))))
+@*/
+/*@ func (types/pod.nodeFilter).Accept
+  props C19 C18
+  theory podfilters
+  implements filter.Filter.Accept
+  requires [recv] (not (= {f} vnil))
+  ensures (= result (nodeAccept {f} {obj}))
+@*/
+/*@ func (types/pod.nodeFilter).Equals
+  props C17
+  theory podfilters
+  implements filter.ComparableFilter.Equals
+  requires [recv] (not (= {f} vnil))
+@*/
